@@ -15,11 +15,34 @@ class SplitSequence:
   returns = "list[int]"
   requires = ["seq >= 0", "length >= 0", "m >= 1"]
   ensures = [("C15,C12", "len(result) == length // m"),
-             ("C15", "forall(j, 0, len(result), 0 <= result[j] and result[j] < pow2(m))")]
-  loops = {0: dict(invariant=["len(res) == n", "forall(j, 0, i, 0 <= res[j] and res[j] < pow2(m))",
-                              "forall(j, i, n, res[j] == 0)"]),
-           1: dict(invariant=["len(res) == n", "forall(j, 0, i, 0 <= res[j] and res[j] < pow2(m))",
-                              "forall(j, i, n, res[j] == 0)"])}
+             ("C15", "forall(j, 0, len(result), 0 <= result[j] and result[j] < pow2(m))"),
+             # the definition: block j is bits j*m .. j*m + m - 1 of seq
+             ("C15", "forall(j, 0, len(result), result[j] == idiv(seq, pow2(j * m)) % pow2(m))")]
+  INV = ["len(res) == n", "forall(j, 0, i, 0 <= res[j] and res[j] < pow2(m))", "forall(j, i, n, res[j] == 0)",
+         ("C15", "forall(j, 0, i, res[j] == idiv(seq, pow2(j * m)) % pow2(m))")]
+  # loop 1 (shift-and-mask path): the block read is bytes a .. c-1 (clamped to the byte string) of the little-endian
+  # encoding, shifted by s = (i*m) % 8; bits s .. s+m-1 of that read are bits i*m .. i*m+m-1 of seq
+  L1 = [("C15", "begin_scope"), ("C15", "let P = _i1 * m"), ("C15", "let a = idiv(P, 8)"), ("C15", "let s = P % 8"),
+        ("C15", "let c = idiv((_i1 + 1) * m, 8) + 1"), ("C15", "let hi = min(c, size)"), ("C15", "let B = 8 * (hi - a)"),
+        ("C15", "let Y = idiv(seq, pow2(8 * a))"),
+        ("C15", "divmod_def(P, 8) and divmod_def((_i1 + 1) * m, 8) and divmod_def(m * n, 8)"),
+        ("C15", "by(0 <= a and a <= size and P == 8 * a + s and 0 <= s and s < 8 and 8 * c > P + m, "
+                "P == 8 * idiv(P, 8) + P % 8, 0 <= P % 8, P % 8 < 8, a == idiv(P, 8), s == P % 8, P == _i1 * m, "
+                "0 <= _i1, _i1 + 1 <= n, m >= 1, (_i1 + 1) * m == P + m, P + m <= m * n, "
+                "(_i1 + 1) * m == 8 * idiv((_i1 + 1) * m, 8) + ((_i1 + 1) * m) % 8, ((_i1 + 1) * m) % 8 < 8, "
+                "c == idiv((_i1 + 1) * m, 8) + 1, m * n == 8 * idiv(m * n, 8) + (m * n) % 8, 0 <= (m * n) % 8, "
+                "size >= idiv(m * n, 8))"),
+        ("C15", "lemma('pow2_div_div', seq, 8 * a, s)"),
+        ("C15", "implies(c <= size, lemma('pow2_mod_div_mod', Y, B, s, m))"),
+        ("C15", "implies(c > size, pow2_add(8 * a, B) and div_lt(seq, pow2(8 * a), pow2(B)) and "
+                "euclid(Y, pow2(B), Y, 0))"),
+        ("C15", "idiv(Y % pow2(B), pow2(s)) % pow2(m) == idiv(seq, pow2(P)) % pow2(m)"),
+        ("C15", "res[_i1] == idiv(seq, pow2(_i1 * m)) % pow2(m)"), ("C15", "end_scope")]
+  # loop 0 (byte-aligned path, m == 8q): the read is exactly bytes i*q .. (i+1)*q - 1
+  L0 = [("C15", "begin_scope"), ("C15", "let q = idiv(m, 8)"), ("C15", "divmod_def(m, 8)"),
+        ("C15", "by(_i0 * m == 8 * (_i0 * q) and (_i0 + 1) * m == 8 * (_i0 * q + q), m == 8 * q)"),
+        ("C15", "res[_i0] == idiv(seq, pow2(_i0 * m)) % pow2(m)"), ("C15", "end_scope")]
+  loops = {0: dict(invariant=INV, body_end=L0), 1: dict(invariant=INV, body_end=L1)}
   total = True
   props = ["C15", "C12", "C18"]
 
